@@ -24,18 +24,22 @@ static int src_call(m_mod_t *h, int kind, int key, int reg, int flags, const voi
     }
     return -1;
 }
+/* a one-shot source leaves the set when its event is received; while batching holds that event back the monitor has not seen the event yet */
+#define SRC_MAYBE_GONE(s, i) ((MD[s].src[i].flags & 2) && MD[s].src[i].fired > 0 && MD[s].ever_batched && MD[s].st == S_RUNNING)
 static const m_src_types KTYPE[NKIND] = { M_SRC_TYPE_FD, M_SRC_TYPE_TMR, M_SRC_TYPE_SGN, M_SRC_TYPE_PATH, M_SRC_TYPE_PID, M_SRC_TYPE_TASK, M_SRC_TYPE_THRESH };
 /* SR.len: the counts reported by the module equal the sizes of the sets (library-internal sources excluded) */
 static void audit_srclen(int s, const char *when) {
     m_mod_t *h = MD[s].present ? MD[s].h : NULL; if (!h || ctx_hidden()) return;
-    int nsub = 0, per[NKIND] = {0}, tot = 0;
+    int nsub = 0, per[NKIND] = {0}, tot = 0, slack[NKIND] = {0}, tslack = 0;
     for (int q = 0; q < NPAT; q++) nsub += MD[s].sub[q].present;
-    for (int i = 0; i < MAXSRC; i++) if (MD[s].src[i].present) { per[MD[s].src[i].kind]++; tot++; }
+    for (int i = 0; i < MAXSRC; i++) if (MD[s].src[i].present) { per[MD[s].src[i].kind]++; tot++;
+        /* a one-shot source leaves the set when its event is received; while batching holds that event back the monitor has not seen it yet */
+        if (SRC_MAYBE_GONE(s, i)) { slack[MD[s].src[i].kind]++; tslack++; } }
     ssize_t r = m_mod_src_len(h, M_SRC_TYPE_PS);
     if (r != nsub) vfail("SR.len", "SR.len|ps", "%s reports %zd subscriptions, the set has %d (%s)", MD[s].name, r, nsub, when);
-    for (int k = 0; k < NKIND; k++) { r = m_mod_src_len(h, KTYPE[k]); if (r != per[k]) vfail("SR.len", "SR.len|kind", "%s reports %zd %s sources, the set has %d (%s)", MD[s].name, r, KN[k], per[k], when); }
+    for (int k = 0; k < NKIND; k++) { r = m_mod_src_len(h, KTYPE[k]); if (r > per[k] || r < per[k] - slack[k]) vfail("SR.len", "SR.len|kind", "%s reports %zd %s sources, the set has %d (%s)", MD[s].name, r, KN[k], per[k], when); }
     r = m_mod_src_len(h, M_SRC_TYPE_END);
-    if (r != nsub + tot) vfail("SR.len", "SR.len|total", "%s reports %zd sources in total, the sets have %d (%s)", MD[s].name, r, nsub + tot, when);
+    if (r > nsub + tot || r < nsub + tot - tslack) vfail("SR.len", "SR.len|total", "%s reports %zd sources in total, the sets have %d (%s)", MD[s].name, r, nsub + tot, when);
 }
 
 /* ---- token bucket: success log over virtual time ---- */
@@ -402,6 +406,7 @@ static void do_api(op_t op) {
             }
             if (!legal || key >= 14) { REFUSED(rc, what, key == 15 ? "SR.set|bad-param" : key == 14 ? "SR.set|unpollable" : "ST.refuse|src"); if (ON(R_SR)) for (int i = 0; i < NM; i++) audit_srclen(i, what); break; }
             if (tb_account(s, rc, &sn, what)) break;
+            if (idx >= 0 && rc == 0 && SRC_MAYBE_GONE(s, idx)) { MD[s].src[idx].present = 0; mt_del(s, idx); idx = -1; }      /* its held event had already taken the one-shot source out of the set */
             if (idx >= 0) { if (rc != -EEXIST) vfail("SR.set", "SR.set|dup", "%s: key already present, returned %d instead of -EEXIST", what, rc); check_unchanged(&sn, what, "SR.set|dup-effect"); if (api_depth == 1) last_refused = 1; break; }
             if (rc) vfail("SR.set", "SR.set|new", "%s: new key, returned %d", what, rc);
             MD[s].src[freei] = (srcrec_t){ 1, kind, key, flags, 0 }; MD[s].life |= 64 << (kind == K_TMR);
@@ -412,6 +417,7 @@ static void do_api(op_t op) {
             if (kind != K_TASK && tb_account(s, rc, &sn, what)) break;
             if (kind == K_TASK) { if (rc >= 0) vfail("SR.set", "SR.set|task-dereg", "a task source was deregistered (returned %d)", rc); check_unchanged(&sn, what, "SR.set|task-dereg"); if (api_depth == 1) last_refused = 1; break; }
             if (idx < 0) { REFUSED(rc, what, "SR.set|absent"); break; }
+            if (rc && SRC_MAYBE_GONE(s, idx)) { break; }      /* already removed when its (held) event was received */
             if (rc) vfail("SR.set", "SR.set|remove", "%s: key present, returned %d", what, rc);
             if (kind == K_FD && (MD[s].src[idx].flags & 5) == 1) UFD[key].open_rd = 0;
             MD[s].src[idx].present = 0; if (kind == K_TMR) mt_del(s, idx);
